@@ -354,4 +354,110 @@ def noEmptyOrExistList : List (Query String) → Bool
   | q :: qs => noEmptyOrExist q && noEmptyOrExistList qs
 end
 
+/-! ## `TagFilter::from_str` on an ARBITRARY text (entry.rs: `serde_json::from_str(query)
+    .map_err(err_map!("Error parsing tag query"))`)
+
+Every failure is the same askar error — `ErrorKind::Input`, message "Error parsing tag query" —
+whose *cause* is the serde_json error classified by `ParseErr`.  The text layer is a parameter
+(`TextParse`): either the text is not JSON, or it denotes a value whose object members are listed in
+SOURCE order with duplicates kept; what the model adds is the nesting limit (counted on the text,
+i.e. before duplicate keys are merged), the `BTreeMap` (`J.norm`) and everything `Deserialize for
+Query` does with the value, including how it wraps `parse_query`'s `&'static str`:
+`de::Error::missing_field` in the object form (and for "neither object nor array"),
+`de::Error::custom` in the legacy array form. -/
+
+/-- What serde_json's text layer makes of the input.  `serde_json::from_str::<Query>` is
+    `Query::deserialize(&mut de)?` followed by `de.end()?`: the FIRST JSON value of the text is read
+    and handed to `Deserialize for Query`, and only if that succeeds is the rest of the text
+    required to be white space.  So `1{}` and `"$or":[]}` fail with "Restriction must be either
+    object or array" and `{"a":5} x` with "Unsupported value", not with "trailing characters". -/
+inductive TextParse where
+  /-- the text does not start with a JSON value: syntax error, EOF, number out of range, ... -/
+  | malformed
+  /-- the text starts with this value (object members in source order, duplicates kept);
+      `trailing`: something other than white space follows it -/
+  | value (j : J) (trailing : Bool)
+  deriving Repr, Inhabited
+
+/-- The serde_json error that is the cause of the `Input` error `from_str` returns. -/
+inductive ParseErr where
+  /-- text layer (carries a line / column) -/
+  | malformed
+  /-- text layer: "recursion limit exceeded" -/
+  | depth
+  /-- `de::Error::missing_field(msg)` — prints as "missing field `msg`" -/
+  | missingField (msg : String)
+  /-- `de::Error::custom(msg)` — prints as `msg` -/
+  | custom (msg : String)
+  deriving DecidableEq, Repr, Inhabited
+
+/-- the `&'static str` of `wql/query.rs` inside the error, if it is a value-level one -/
+def ParseErr.msg : ParseErr → Option String
+  | .missingField m => some m
+  | .custom m => some m
+  | _ => none
+
+/-- `Display` of the cause.  Value-level errors are created outside the deserializer and carry no
+    position, so this is the complete text; for the two text-level classes it is the part before
+    " at line … column …" (for `malformed`: the class name "syntax", the wording varies). -/
+def ParseErr.display : ParseErr → String
+  | .malformed => "syntax"
+  | .depth => "recursion limit exceeded"
+  | .missingField m => "missing field `" ++ m ++ "`"
+  | .custom m => m
+
+/-- `Error::kind()` of what `from_str` returns on failure: `err_map!` without a kind is `Input`,
+    whatever the cause (name as in `ErrorKind::as_str` / the harness's `err_name`). -/
+def ParseErr.kindName (_ : ParseErr) : String := "Input"
+
+/-- how `Deserialize for Query` wraps `parse_query`'s message, by the top-level shape -/
+def wrapErr : J → String → ParseErr
+  | .arr _, m => .custom m
+  | _, m => .missingField m
+
+/-- `impl Deserialize for Query` with serde's error wrapping (value already in map order) -/
+def fromValue (j : J) : Except ParseErr (Query String) :=
+  match parseQuery j with
+  | .ok q => .ok q
+  | .error m => .error (wrapErr j m)
+
+/-- `TagFilter::from_str` -/
+def fromText : TextParse → Except ParseErr (Query String)
+  | .malformed => .error .malformed
+  | .value j trailing =>
+    if j.depth ≤ jsonDepthLimit then
+      match fromValue j.norm with
+      | .error e => .error e
+      | .ok q => if trailing then .error .malformed else .ok q
+    else .error .depth
+
+/-- every `&'static str` the value-level parser can fail with (wql/query.rs, `serde_support`) -/
+def parseErrorMessages : List String :=
+  ["$and must be array of JSON objects", "$or must be array of JSON objects", "$not must be JSON object",
+   "$exist must be used with a string or array of strings", "value must be JSON object of length 1",
+   "Unsupported value", "operator must be array of JSON objects",
+   "$neq must be used with string", "$gt must be used with string", "$gte must be used with string",
+   "$lt must be used with string", "$lte must be used with string", "$like must be used with string",
+   "$in must be used with array of strings", "Unknown operator",
+   "Restriction is invalid", "Restriction must be either object or array"]
+
+/-! ### The legacy array form, member by member -/
+
+/-- `.filter(|(_, v)| !v.is_null())` -/
+def dropNulls (m : List (String × J)) : List (String × J) := m.filter fun kv => !kv.2.isNull
+
+/-- the restrictions that survive: `null` members dropped, then the objects left empty dropped -/
+def legacyKept (ms : List (List (String × J))) : List (List (String × J)) :=
+  (ms.map dropNulls).filter fun m => !m.isEmpty
+
+/-- member by member: the i-th restriction, read as a filter of its own (`{…}`), is the i-th query -/
+def ParsesTo : List (List (String × J)) → List (Query String) → Prop
+  | [], [] => True
+  | m :: ms, q :: qs => parseQuery (.obj m) = .ok q ∧ ParsesTo ms qs
+  | _, _ => False
+
+def J.isObj : J → Bool
+  | .obj _ => true
+  | _ => false
+
 end Askar.Wql
